@@ -542,27 +542,27 @@ class Samples(BaseSamples):
             )
         return out
 
-    def to_namespace(self, xp):
+    def to_namespace(self, xp, dtype: Any | str | None = None):
+        if dtype is None:
+            dtype = convert_dtype(self.dtype, xp)
+        else:
+            dtype = resolve_dtype(dtype, xp)
         return self.__class__(
-            x=asarray(self.x, xp, dtype=self.dtype),
+            x=self.x,
             parameters=self.parameters,
-            log_likelihood=asarray(self.log_likelihood, xp, dtype=self.dtype)
-            if self.log_likelihood is not None
-            else None,
-            log_prior=asarray(self.log_prior, xp, dtype=self.dtype)
-            if self.log_prior is not None
-            else None,
-            log_q=asarray(self.log_q, xp, dtype=self.dtype)
-            if self.log_q is not None
-            else None,
-            log_evidence=asarray(self.log_evidence, xp, dtype=self.dtype)
+            log_likelihood=self.log_likelihood,
+            log_prior=self.log_prior,
+            log_q=self.log_q,
+            log_evidence=asarray(self.log_evidence, xp, dtype=dtype)
             if self.log_evidence is not None
             else None,
             log_evidence_error=asarray(
-                self.log_evidence_error, xp, dtype=self.dtype
+                self.log_evidence_error, xp, dtype=dtype
             )
             if self.log_evidence_error is not None
             else None,
+            xp=xp,
+            dtype=dtype,
         )
 
     def to_numpy(self):
